@@ -97,6 +97,7 @@ class Facts:
 # call classification helpers
 # ----------------------------------------------------------------------------------------
 
+PTR_METHOD_RE = re.compile(r'ptr::(mut_ptr|const_ptr)::<impl \*(mut|const) T>::(read|read_volatile|read_unaligned|write|write_volatile|write_unaligned|drop_in_place|replace|write_bytes)$')
 PRED_RE = re.compile(r'(?:result::Result|option::Option)(?:::<.*>)?::(is_ok|is_err|is_some|is_none)$')
 FN_TRAIT_RE = re.compile(r'ops::(function::)?(FnOnce|FnMut|Fn)(::|$)')
 
@@ -409,6 +410,7 @@ class Graph:
         self._thread_budget = 8 * len(self.nodes) + 2000
         for _pass in range(8):
             c = self._thread_jumps()
+            c += self._thread_same_discr()
             self.threaded += c
             if c == 0:
                 break
@@ -493,6 +495,17 @@ class Graph:
                     o, a = self._const_origins(iid, rv['a']['pl']['l'], fwd, depth + 1)
                     outs += [(on, '0' if str(v) != '0' else '1') for (on, v) in o]
                     allc = allc and a
+                elif rv['k'] == 'bin' and rv['op'] in ('Eq', 'Ne') and all(rv[k_]['k'] in ('copy', 'move') and not rv[k_]['pl']['p'] for k_ in ('a', 'b')):
+                    # `discriminant(x) == discriminant(y)` (the derived PartialEq of a payload-free enum): known when one
+                    # side is a unit-variant constant and the other side's variant origins are known
+                    sides = [self._discr_side(iid, rv[k_]['pl']['l'], fwd, depth + 1) for k_ in ('a', 'b')]
+                    cs = [s_ for s_ in sides if s_ and s_[0] == 'const']
+                    os_ = [s_ for s_ in sides if s_ and s_[0] == 'origins']
+                    if len(cs) == 1 and len(os_) == 1:
+                        is_eq = rv['op'] == 'Eq'
+                        outs += [(on, '1' if ((str(v) == str(cs[0][1])) == is_eq) else '0') for (on, v) in os_[0][1]]
+                    else:
+                        allc = False
                 elif rv['k'] == 'discr' and not rv['pl']['p']:
                     o, a = self._variant_origins(iid, rv['pl']['l'], fwd, depth + 1)
                     outs += o
@@ -558,6 +571,22 @@ class Graph:
             else:
                 allc = False
         return outs, allc
+
+    def _discr_side(self, iid, l, fwd, depth):
+        """operand of a discriminant comparison: local l = discriminant(place) -> ('const', v) / ('origins', [..]) / None"""
+        ds = self.defs.get((iid, l))
+        if not ds or len(ds) != 1 or ds[0][0] != 'rv' or (iid, l) in self.pdefs:
+            return None
+        rv = ds[0][1]
+        if rv['k'] == 'use' and rv['op']['k'] in ('copy', 'move') and not rv['op']['pl']['p']:
+            return self._discr_side(iid, rv['op']['pl']['l'], fwd, depth + 1)
+        if rv['k'] != 'discr':
+            return None
+        pl = rv['pl']
+        if pl['p'] == ['*']:
+            return self._ref_variant(iid, {'k': 'copy', 'pl': {'l': pl['l'], 'p': []}}, fwd, depth + 1)
+        o = self._resolve_variant(iid, pl['l'], list(pl['p']), fwd, depth + 1)
+        return ('origins', o) if o else None
 
     def _ref_variant(self, iid, opd, fwd, depth):
         """what a `&Enum` operand points at: ('const', discriminant) for a promoted unit-variant constant,
@@ -802,6 +831,68 @@ class Graph:
                 cnt += 1
         return cnt
 
+    def _thread_same_discr(self):
+        """the same enum value tested twice inside one function instance (`match r {..}` followed by the drop-flag test
+        the compiler adds for `r`, as in the MIR of `Result::err` / `Option::map`): a path that leaves the first test
+        on one edge and reaches the second without re-executing the call that produced the value takes the same edge
+        there; it is routed (through clones) behind that edge."""
+        cnt = 0
+        live0 = self.reachable()
+        bysite = {}
+        for n in self.nodes:
+            if n.id in live0:
+                bysite.setdefault(self.site_of(n.id), []).append(n.id)
+        groups = {}
+        for n in self.nodes:
+            if n.id not in live0 or n.kind != 'block' or n.term['k'] != 'switch' or len(n.succs) < 2:
+                continue
+            e = self.strip(self.switch_expr(n.id))
+            if e[0] != 'discr':
+                continue
+            inner = self.strip(e[1])
+            if inner[0] != 'call':
+                continue
+            groups.setdefault((n.inst, inner[1]), []).append(n.id)
+        for (iid, cn), sws in groups.items():
+            if len({self.site_of(s_) for s_ in sws}) < 2:
+                continue
+            redo = set(bysite.get(self.site_of(cn)) or [cn])
+            for s1 in sws:
+                for s2 in sws:
+                    if self.site_of(s1) == self.site_of(s2) or len(self.nodes) > self._thread_budget:
+                        continue
+                    S2 = self.nodes[s2]
+                    for e1 in list(self.nodes[s1].succs):
+                        E1 = self.nodes[e1]
+                        if E1.kind != 'edge' or not E1.succs or E1.edge[1] is None:
+                            continue
+                        tgt = None
+                        for e2 in S2.succs:
+                            if self.nodes[e2].kind == 'edge' and self.nodes[e2].edge[1] is not None and str(self.nodes[e2].edge[1]) == str(E1.edge[1]):
+                                tgt = e2
+                        if tgt is None or len(self.nodes[tgt].succs) != 1:
+                            continue
+                        tgt = self.nodes[tgt].succs[0]
+                        blocked = redo | {s2}
+                        start = list(E1.succs)
+                        if any(x_ in blocked for x_ in start):
+                            continue
+                        region = self.reachable(start, blocked=blocked)
+                        if not any(s2 in self.nodes[r].succs for r in region) or len(region) > 60:
+                            continue
+                        clone = {}
+                        for r in region:
+                            C = self.nodes[r]
+                            N = self._new_node(C.inst, C.fn, C.bb, C.kind)
+                            N.stmts, N.term, N.line, N.call, N.edge = C.stmts, C.term, C.line, C.call, C.edge
+                            clone[r] = N.id
+                        for r in region:
+                            C = self.nodes[r]
+                            self.nodes[clone[r]].succs = [tgt if s_ == s2 else clone.get(s_, s_) for s_ in C.succs]
+                        E1.succs = [tgt if s_ == s2 else clone.get(s_, s_) for s_ in E1.succs]
+                        cnt += 1
+        return cnt
+
     # ------------------------------------------------------------------ provenance
     # ---- reaching definitions (flow sensitivity for locals assigned more than once)
     def _def_site(self, d):
@@ -1020,6 +1111,8 @@ class Graph:
         if k == 'const':
             if 'fn' in o:
                 return ('fnc', o['fn'])
+            if o.get('ref_v') is not None:
+                return ('ref', ('c', o['ref_v'], o.get('ref_enumv'), 'enum:' + str(o.get('ref_adt'))))
             return ('c', o.get('v'), o.get('enumv'), o.get('ty'))
         return UNKNOWN
 
@@ -1157,7 +1250,12 @@ class Graph:
         if k == 'un':
             return ('un', rv['op'], self.ev_op(iid, rv['a'], at))
         if k == 'discr':
-            return ('discr', self.ev_place(iid, rv['pl'], at))
+            inner = self.ev_place(iid, rv['pl'], at)
+            si_ = self.strip(inner)
+            if si_[0] == 'c' and si_[1] is not None and len(si_) > 3 and str(si_[3]).startswith('enum:'):
+                # discriminant of a unit-variant constant (`&Enum::Variant` promoted out of the function)
+                return ('c', si_[1], None, 'isize')
+            return ('discr', inner)
         if k == 'agg':
             ops = tuple(self.ev_op(iid, o, at) for o in rv['ops'])
             ak = rv['ak']
@@ -1259,7 +1357,12 @@ class Graph:
         n = self.nodes[nid]
         if n.call is None:
             return None
-        return n.call.get('resolved') or n.call['name']
+        nm = n.call.get('resolved') or n.call['name']
+        # `p.read()` / `p.write(v)` / `p.drop_in_place()` are the free functions of core::ptr with the same arguments
+        m = PTR_METHOD_RE.search(nm)
+        if m:
+            return 'core::ptr::' + m.group(3)
+        return nm
 
     def strip(self, e):
         """strip casts / copies"""
